@@ -14,6 +14,9 @@ DOMAINS = {
     # the other functions live on D1)
     "D0": (1.0, 2.0, -0.7, 0.7),
     "D1": (0.8, 2.3, -0.9, 0.6),
+    # a tall, narrow box at small major radius: max(Z) > max(R) and |min(Z)| > max(R), so any
+    # mix-up between the R and Z extents of the table shows
+    "D2": (0.3, 1.1, -1.4, 1.6),
 }
 
 
@@ -84,6 +87,33 @@ def _offgauss():
     return Func("offgauss", "D1", f, grad, 1.0)
 
 
+def _tallgauss():
+    # (amplitude, Rc, Zc, wR, wZ) on D2
+    terms = [(0.8, 0.72, 0.2, 0.22, 0.5), (-0.45, 0.55, 1.25, 0.2, 0.3), (0.4, 0.8, -1.1, 0.25, 0.28)]
+    lr, lz = 0.25, 0.1
+
+    def f(R, Z):
+        R = np.asarray(R, dtype=float)
+        Z = np.asarray(Z, dtype=float)
+        out = lr * (R - 0.7) + lz * Z
+        for a, rc, zc, wr, wz in terms:
+            out = out + a * np.exp(-(((R - rc) / wr) ** 2) - ((Z - zc) / wz) ** 2)
+        return out
+
+    def grad(R, Z):
+        R = np.asarray(R, dtype=float)
+        Z = np.asarray(Z, dtype=float)
+        gr = lr + 0 * (R + Z)
+        gz = lz + 0 * (R + Z)
+        for a, rc, zc, wr, wz in terms:
+            g = a * np.exp(-(((R - rc) / wr) ** 2) - ((Z - zc) / wz) ** 2)
+            gr = gr - 2 * (R - rc) / wr**2 * g
+            gz = gz - 2 * (Z - zc) / wz**2 * g
+        return gr, gz
+
+    return Func("tallgauss", "D2", f, grad, 1.0)
+
+
 def cosmode(nR, nZ):
     """a function that lies in the span of the DCT-II basis of an nR x nZ grid on D1, so the
     dct interpolant must reproduce it (and its derivatives) everywhere, not only at nodes"""
@@ -123,6 +153,8 @@ def get(name, nR=None, nZ=None):
         return _saddle()
     if name == "offgauss":
         return _offgauss()
+    if name == "tallgauss":
+        return _tallgauss()
     if name == "cosmode":
         return cosmode(nR, nZ)
     raise ValueError(name)
